@@ -8,6 +8,7 @@ import Driver.OpsVector
 import Driver.OpsFrame
 import Driver.OpsLoD
 import Driver.OpsObs
+import Driver.OpsFS
 
 open Lean DI DI.Codec
 
@@ -22,6 +23,9 @@ def dispatch (op : String) (a : Json) : Except String Json :=
   | some r => r
   | none =>
   match DI.Ops.obsOp op a with
+  | some r => r
+  | none =>
+  match DI.Ops.fsOp op a with
   | some r => r
   | none => .error s!"unknown op {op}"
 
